@@ -21,7 +21,7 @@ TARGETS = {
     "csv_cells":      dict(runs=30_000, max_len=2 + 16 * 40, dict=None),
 }
 PLAN = {
-    "C01": ["ledger_intents"], "C03": ["ledger_intents"], "C04": ["ledger_intents"],
+    "C01": ["ledger_intents"], "C02": ["ledger_intents"], "C03": ["ledger_intents"], "C04": ["ledger_intents"],
     "C05": ["csv_cells", "csv_app", "etrade_text", "fmv_text"], "C11": ["csv_cells", "csv_roundtrip"],
 }
 JOBS = min(16, os.cpu_count() or 4)
